@@ -286,6 +286,49 @@ class WhileOnce(ast.NodeTransformer):
         return ast.copy_location(loop, node)
 
 
+class ForInvariant(ast.NodeTransformer):
+    """for t in it: body     (loop-carried names c1..cn found by the dataflow pass)
+         ->   (c1..cn) = __pyvc_loop_enter(k, names, (c1..cn))      # init obligation; returns a generic state satisfying the invariant
+              for t in __pyvc_once(k, it): body                     # ONE generic iteration, t arbitrary in the range
+              (c1..cn) = __pyvc_loop_exit(k, names, (c1..cn))       # preservation obligation; returns a generic state for the code after the loop
+       applied only to loops whose ordinal is listed (sidecar: function name, loop ordinal)"""
+
+    def __init__(self, which):
+        self.which = which          # {function name: [loop ordinals]}
+        self.fn = None
+        self.count = 0
+
+    def visit_FunctionDef(self, node):
+        old = (self.fn, self.count)
+        self.fn, self.count = node.name, 0
+        self.generic_visit(node)
+        self.fn, self.count = old
+        return node
+
+    def visit_For(self, node):
+        k = self.count
+        self.count += 1
+        self.generic_visit(node)
+        if self.fn not in self.which or k not in self.which[self.fn]:
+            return node
+        tn = {n.id for n in ast.walk(node.target) if isinstance(n, ast.Name)}
+        names = _carried(node.body, tn)
+        if not names:
+            return node
+        tup_l = lambda: ast.Tuple(elts=[ast.Name(id=n, ctx=ast.Load()) for n in names], ctx=ast.Load())
+        tup_s = lambda: ast.Tuple(elts=[ast.Name(id=n, ctx=ast.Store()) for n in names], ctx=ast.Store())
+        key = ast.Constant(value="%s#%d" % (self.fn, k))
+        nm = ast.Constant(value=tuple(names))
+        enter = ast.Assign(targets=[tup_s()], value=ast.Call(func=ast.Name(id="__pyvc_loop_enter", ctx=ast.Load()), args=[key, nm, tup_l()], keywords=[]))
+        node.iter = ast.Call(func=ast.Name(id="__pyvc_once", ctx=ast.Load()), args=[key, node.iter], keywords=[])
+        exit_ = ast.Assign(targets=[tup_s()], value=ast.Call(func=ast.Name(id="__pyvc_loop_exit", ctx=ast.Load()), args=[key, nm, tup_l()], keywords=[]))
+        return [ast.copy_location(enter, node), node, ast.copy_location(exit_, node)]
+
+
+def for_invariant(which):
+    return lambda tree: ForInvariant(which).visit(tree)
+
+
 def while_once(tree):
     return WhileOnce().visit(tree)
 
